@@ -435,11 +435,25 @@ func (r *Run) syncInternVals(w map[int]*big.Int) {
 // internViolations returns the implicit genericity assumptions violated by the assignment m: pairs
 // of interned terms with different handles that m makes equal.
 func (r *Run) internViolations(m map[int]*big.Int) []Pred {
+	var out []Pred
+	for _, hv := range r.hashVars {
+		if len(hv) <= hashExplicit {
+			continue
+		}
+		seen := map[string]int{}
+		for ix, p := range hv {
+			vk := p.eval(m, r.q).String()
+			if j, dup := seen[vk]; dup {
+				out = append(out, Not(simplifyEqZ(p.sub(hv[j], r.q))))
+				continue
+			}
+			seen[vk] = ix
+		}
+	}
 	if r.serializationOnly || len(r.interned) < 2 {
-		return nil
+		return out
 	}
 	first := map[string]int{}
-	var out []Pred
 	for ix, e := range r.interned {
 		vk := string(e.kind) + e.p.eval(m, r.q).String()
 		if j, dup := first[vk]; dup {
